@@ -393,8 +393,9 @@ def edim(g, big=False):
 def suite_echelon(g, n, big=False):
     rng = g.rng
     for _ in range(n):
-        op = rng.choice(['gauss_delayed', 'echelonize_naive', 'echelonize_m4ri', 'echelonize_m4ri', 'echelonize_m4ri_h',
-                         'echelonize_pluq', 'echelonize_pluq', 'echelonize', 'top_echelonize_m4ri'])
+        op = rng.choice(['gauss_delayed', 'echelonize_naive', 'echelonize_m4ri', 'echelonize_m4ri_exact',
+                         'echelonize_m4ri_exact', 'echelonize_m4ri_h', 'echelonize_pluq', 'echelonize_pluq', 'echelonize',
+                         'top_echelonize_m4ri', 'top_echelonize_exact'])
         r, c = edim(g, big), edim(g, big)
         rows = profile_matrix(g, r, c)
         full = rng.randint(0, 1)
@@ -405,6 +406,11 @@ def suite_echelon(g, n, big=False):
             g.add(op, '%s %d' % (g.mat(r, c, rows), full), r=r, c=c)
         elif op == 'echelonize_m4ri':
             g.add(op, '%s %d %d' % (g.mat(r, c, rows), full, rng.randint(0, 10)), r=r, c=c, full=full)
+        elif op == 'echelonize_m4ri_exact':
+            g.add(op, '%s %d %d' % (g.mat(r, c, rows), full, rng.randint(1, 10)), r=r, c=c, full=full)
+        elif op == 'top_echelonize_exact':
+            ech = py_echelon(rows, r, c)
+            g.add(op, '%s %d' % (g.mat(r, c, ech), rng.randint(1, 8)), r=r, c=c)
         elif op == 'echelonize_m4ri_h':
             g.add(op, '%s %d %d %d' % (g.mat(r, c, rows), full, rng.randint(0, 8), rng.choice([0, 15, 50, 100])), r=r, c=c,
                   full=full)
